@@ -150,16 +150,16 @@ theorem runStop_two {s t : HG} {a b : Op} {o : Outcome} (hr : runStop s [a, b] =
 /-- the rebuilt network has no edge ID the source does not have -/
 theorem rebuild_edges_sub (s : HG) {t : HG} {o : Outcome} (hr : runStop HG.empty (rebuildOps s) = some (t, o)) :
     ∀ e ∈ t.edges, e ∈ s.edges := by
-  have hn : (addNodesFrom HG.empty (nodeItems s) []).1.edges = [] :=
+  have hn : (addNodesFrom HG.empty (rebuildNodeItems s) []).1.edges = [] :=
     bulk_edges_eq _ (addNodesItem_edges []) _ _
-  have key : ∀ u : HG, u.edges = [] → ∀ e ∈ (addEdgesFrom u .f4 (edgeItems s) []).1.edges, e ∈ s.edges := by
+  have key : ∀ u : HG, u.edges = [] → ∀ e ∈ (addEdgesFrom u .f4 (rebuildEdgeItems s) []).1.edges, e ∈ s.edges := by
     intro u hu e he
-    have : (addEdgesFrom u .f4 (edgeItems s) []).1 = (bulk (addEdgesItem .f4 []) u (edgeItems s)).1 := by
+    have : (addEdgesFrom u .f4 (rebuildEdgeItems s) []).1 = (bulk (addEdgesItem .f4 []) u (rebuildEdgeItems s)).1 := by
       unfold addEdgesFrom; split <;> first | rfl | (rename_i h _ ; cases h)
     rw [this] at he
-    rcases bulk_edges_sub [] (edgeItems s) u e he with h | ⟨it, hit, h⟩
+    rcases bulk_edges_sub [] (rebuildEdgeItems s) u e he with h | ⟨it, hit, h⟩
     · rw [hu] at h; cases h
-    · unfold edgeItems at hit
+    · unfold rebuildEdgeItems at hit
       simp only [List.mem_map] at hit
       obtain ⟨e', he', rfl⟩ := hit
       simp only [Option.some.injEq] at h
@@ -213,5 +213,9 @@ example : (copyOf (addEdge (addEdge HG.empty [.int 1, .int 2] (some (.int 7)) []
     (fun r => (r.1.edges, r.1.uid, r.2)) = some ([.int 7, .int 8], 9, .ok) := by decide +kernel
 example : (dualOf (addEdge HG.empty [.int 1, .int 2] (some (.int 7)) []).1).map
     (fun r => (r.1.edges, r.1.nodes, r.1.uid)) = some ([.int 1, .int 2], [.int 7], 3) := by decide +kernel
+
+/- that `copy()`, `Hypergraph(H)` and the pickle round trip reproduce the whole network (same nodes/edges in order, members,
+   memberships, attributes, counter) is proved on the same transcription in Props/C07.lean (`copy_snapshot`, `ofNetwork_snapshot`,
+   `pickle_snapshot`) -/
 
 end Xgi.C04P
